@@ -38,6 +38,8 @@ STREAMS = {
     "decode-enum": {"n": {"quick": 11, "thorough": 16}, "nontrivial": nt_decode},
     "build": {"n": {"quick": 500, "thorough": 20000}, "nontrivial": nt_build},
     "agent-seq": {"n": {"quick": 3, "thorough": 4}, "nontrivial": None},
+    "attrs-valid": {"n": {"quick": 1500, "thorough": 60000}, "nontrivial": nt_any},
+    "attrs-malformed": {"n": {"quick": 1, "thorough": 30}, "nontrivial": nt_any},
 }
 
 
@@ -145,5 +147,34 @@ PROPS = {
                 "of 4 collect times, SetHandler and Close (exhaustive), plus long random sequences (<= 2000 calls, "
                 "<= 64 ids); return value and sorted events per call; non-trivial = a successful Start and a "
                 "terminal event",
+    },
+    "C06": {
+        "modules": ["Stun.Properties.C06"],
+        "theorems": ["Stun.C06.xor_add_eq_rfc", "Stun.C06.mapped_add_eq_rfc", "Stun.C06.errorCode_add_eq_rfc",
+                     "Stun.C06.unknown_add_eq_rfc", "Stun.C06.text_add", "Stun.C06.addrFamily_mapped",
+                     "Stun.C06.xorGet_rfc", "Stun.C06.mappedGet_rfc", "Stun.C06.errorCodeGet_rfc",
+                     "Stun.C06.unknownGet_rfc", "Stun.C06.textGet", "Stun.C06.decXor_encXor",
+                     "Stun.C06.decMapped_encMapped", "Stun.C06.decErrorCode_enc", "Stun.C06.decUnknown_enc",
+                     "Stun.C06.get_after_add"],
+        "streams": ["attrs-valid", "build"],
+        "level": "proof",
+        "rule": "every typed attribute with valid values (ports incl. 0/0x2112/65535, IPv4/IPv6/IPv4-mapped, random "
+                "transaction ids, text up to the limits, codes 300..699, lists of 0..64 types): library setter -> "
+                "wire -> library re-decode -> library getter, and an independent RFC encoder (in the generator) -> "
+                "library getter; the model side is the Lean RFC spec",
+    },
+    "C07": {
+        "modules": ["Stun.Properties.C07"],
+        "theorems": ["Stun.C07.xorGet_no_panic", "Stun.C07.mappedGet_no_panic", "Stun.C07.textGet_no_panic",
+                     "Stun.C07.errorCodeGet_no_panic", "Stun.C07.unknownGet_no_panic",
+                     "Stun.C07.fingerprintCheck_no_panic", "Stun.C07.xorGet_local", "Stun.C07.mappedGet_local",
+                     "Stun.C07.textGet_local", "Stun.C07.errorCodeGet_local", "Stun.C07.unknownGet_local",
+                     "Stun.C07.fingerprintCheck_local", "Stun.C07.get_local"],
+        "streams": ["attrs-malformed"],
+        "tagsets": [["verif"], ["verif", "debug"]],
+        "level": "proof",
+        "rule": "every getter/checker x value length 0..40 (exhaustive) x position first/middle/last x capacity exact/"
+                "+1/+2/+19/+20/+64 x surroundings zero/0xFF/random (three twin messages differing only outside the "
+                "value); short values (<=5) with every position x capacity combination; message dumped after the call",
     },
 }
